@@ -39,6 +39,44 @@ class UserTransform:
         return (x - self.lo) / self.span
 
 
+from formulae.categorical import ContrastMatrix, Encoding  # noqa: E402
+
+
+class Helmert(Encoding):
+    """A user-defined encoding (the documented extension point) whose contrast has FRACTIONAL entries."""
+
+    def code_with_intercept(self, levels):
+        sub = self.code_without_intercept(levels)
+        return ContrastMatrix(np.column_stack([np.ones(len(levels)), sub.matrix]), ["mean"] + list(sub.labels))
+
+    def code_without_intercept(self, levels):
+        n = len(levels)
+        m = np.zeros((n, n - 1))
+        for j in range(1, n):
+            m[:j, j - 1] = -1.0 / (j + 1)
+            m[j, j - 1] = j / (j + 1)
+        return ContrastMatrix(m, [f"H{j}" for j in range(1, n)])
+
+
+def register_clash(name):
+    """What a host program may do at any time: register a stateful transform under a name that callers
+    also use for their own plain functions."""
+
+    class Clash:
+        __transform_name__ = name
+
+        def __init__(self):
+            self.first = None
+
+        def __call__(self, x):
+            if self.first is None:
+                self.first = float(np.min(np.asarray(x, dtype=float)))
+            return np.asarray(x, dtype=float) - self.first
+
+    Clash.__name__ = f"Clash_{name}"
+    return register_stateful_transform(Clash)
+
+
 CLIENT_SRC = """
 def _build0(_f, _d, _na, _ex):
     return design_matrices(_f, _d, na_action=_na, extra_namespace=_ex)
@@ -86,6 +124,8 @@ def make_client(spec, idx, ns_extra=None):
     # encoding instances owned (and reused across designs) by the caller
     ns["tr0"] = Treatment()
     ns["sm0"] = Sum()
+    ns["Helmert"] = Helmert
+    ns["hel0"] = Helmert()
     exec(compile(CLIENT_SRC, f"<client{idx}>", "exec"), ns)
     extra = spec.get("extra")
     extra = None if extra is None else dict(extra)
